@@ -206,6 +206,10 @@ func runC02(c *Ctx) {
 	queueGetResets(c, "C02-D7")
 	sendUnderTransportLock(c, "C02-D7")
 
+	c.Rule("C02-D8", "nothing is put back: a function that takes packets out of a queue (pollQueue.get/poll, packetQueue.get/poll) adds none to that queue, itself, in its closures and private helpers, or through a module "+
+		"function it calls — a re-queued remainder lands behind packets sent in the meantime (order lost, binary frames separated from their header)", 4)
+	noPutBack(c, "C02-D8")
+
 	c.Rule("C02-D6", "transports hand packets over synchronously and in arrival order: every Callbacks.OnPacket call of the transports and of the Engine.IO sockets is a plain call on the transport's own reading goroutine "+
 		"(not `go`, not deferred, not inside a closure started with `go`), the Engine.IO layer forwards to the Socket.IO callbacks the same way, and the polling server answers a POST only after OnPacket returned "+
 		"(the next POST of the same client is sent after that answer: answering first lets two payloads be processed concurrently)", 9)
